@@ -159,9 +159,10 @@ def shapes(tier, seed):
     out.append({'h': 'async', 'ops': [sh2, sh2], 'ignore_k1': True, 'max_paths': 60000})
     out.append({'h': 'async', 'ops': [sh2, ['streaming_shell', {'lens': [1, 1]}]], 'ignore_k1': True, 'max_paths': 60000})
     out.append({'h': 'threads', 'ops': [sh2, sh2], 'preempt': 1, 'yields': False, 'ignore_k1': True, 'max_paths': 60000})
-    # 8. a paused streaming_shell whose stream receives 70 payloads while another command is running: all of them arrive, in order
+    # 8. a paused streaming_shell whose stream receives 70 payloads while another command is running (a device that does not wait
+    #    for the OKAY between its WRTEs): all of them arrive, in order
     for impl in impls:
-        out.append({'h': 'interleave', 'impl': impl, 'gens': [[1] * 70], 'mid': 'shell', 'pick': False, 'order': [0, 'm'] + [0] * 72, 'device_first': 0})
+        out.append({'h': 'interleave', 'impl': impl, 'gens': [[1] * 70], 'mid': 'shell', 'pick': False, 'order': [0, 'm'] + [0] * 72, 'device_first': 0, 'no_flow_control': True, 'judge_okays': False})
     # 6. non-ASCII command string (concrete)
     for impl in impls:
         out.append({'h': 'service', 'impl': impl, 'api': 'shell', 'decode': False, 'lens': [2, 2], 'cmd': 'echo € \U0001F600'})
